@@ -35,6 +35,28 @@ def rand_net(rng, nv, density, caps, labels=None, opp_bias=0.0):
     return {"verts": vs, "edges": edges, "s": s, "t": t}
 
 
+def maxsize_backflow(rng):
+    """structured family: a pair of opposite edges u->v (small) / v->u (sys.maxsize) inside two unbounded source-sink routes plus a finite
+    one, so that later augmentations have to push MORE than sys.maxsize units back along an edge that first carried sys.maxsize units;
+    vertices relabelled, finite capacities and edge order random, a few extra random edges"""
+    M = MAXSIZE
+    small = lambda: rng.choice([1, 1, 2, 3])
+    base = [(0, 2, M), (0, 1, M), (0, 3, small()), (1, 5, M), (1, 2, small()), (2, 1, M), (2, 5, M), (2, 4, small()), (3, 1, small()), (4, 5, small())]
+    nv = 6 + rng.choice([0, 0, 1])
+    lab = rng.sample(range(-3, 12), nv)
+    edges = [[lab[u], lab[v], c] for u, v, c in base]
+    have = {(e[0], e[1]) for e in edges}
+    for _ in range(rng.randint(0, 3)):
+        u, v = rng.sample(range(nv), 2)
+        if (lab[u], lab[v]) not in have and lab[v] != lab[0] and lab[u] != lab[5]:
+            edges.append([lab[u], lab[v], rng.choice([0, 1, 2, M])])
+            have.add((lab[u], lab[v]))
+    rng.shuffle(edges)
+    vs = lab[:]
+    rng.shuffle(vs)
+    return {"verts": vs, "edges": edges, "s": lab[0], "t": lab[5]}
+
+
 def poset_shaped(rng, k):
     """the network Irving builds: s=-1, t=-2, 'infinite' arcs between rotations, weights to s/t"""
     verts = [-1, -2] + list(range(k))
